@@ -173,11 +173,16 @@ func c14Mutate(i *Interpreter, which int) bool {
 		ok = true
 	case 19:
 		run(`catch(open_null_c14, _, true), write(to_a), nl, flush_output.`)
+	case 20:
+		// loading files: each interpreter has its own file system; the same name is a different text in each
+		run(`consult(shared_c14), consult(only_a_c14), greeting_c14(hello), secret_c14(_).`)
+	case 21:
+		run(`ensure_loaded(shared_c14), greeting_c14(hello).`)
 	}
 	return ok
 }
 
-const c14NOps = 20
+const c14NOps = 22
 
 func H_C14_frame(inst int) {
 	pr := c14NewPair()
@@ -187,6 +192,8 @@ func H_C14_frame(inst int) {
 	if swap {
 		a, b, outB = pr.b, pr.a, pr.outA
 	}
+	a.FS = c13FS{"shared_c14.pl": "greeting_c14(hello).\n", "only_a_c14.pl": "secret_c14(xyzzy).\n"}
+	b.FS = c13FS{"shared_c14.pl": "greeting_c14(bonjour).\n"}
 	before := c14Observe(b, outB, -1)
 	verify(!strings.Contains(before, "error: "), "harness: an observer query failed: "+before)
 	frameBegin(b, []string{"github.com/ichiban/prolog/engine.atomTable", "github.com/ichiban/prolog/engine.varCounter"})
@@ -196,6 +203,12 @@ func H_C14_frame(inst int) {
 	verifyExec(w == "", "an operation on one interpreter wrote outside its own state: "+w)
 	after := c14Observe(b, outB, -1)
 	verify(before == after, "an operation on interpreter A changed what interpreter B observes:\nbefore:\n"+c14Diff(before, after))
+	if which >= 20 {
+		// B loads the file of the same name from ITS file system, and cannot load a file only A's file system has
+		verify(b.QuerySolution("consult(shared_c14), greeting_c14(X), X == bonjour.").Err() == nil, "interpreter B loading a file of the same name does not get the text of its own file system")
+		verify(b.QuerySolution("greeting_c14(hello).").Err() != nil, "a clause loaded by interpreter A is visible in B")
+		verify(b.QuerySolution("catch(consult(only_a_c14), error(existence_error(_, _), _), fail).").Err() != nil, "interpreter B can load a file that only exists in A's file system")
+	}
 	reach("c14/frame", true)
 }
 
